@@ -974,6 +974,8 @@ class Interp:
         self.guard(False, "TypeError", node, f"'{type(fn).__name__}' object is not callable")
 
     def instantiate(self, cls, args, kwargs, node):
+        if getattr(cls, "unknown_decorator", None):
+            self.unsupported(f"instantiation of {cls.name}, decorated with @{cls.unknown_decorator}", node)
         h = self.abstractions.get(cls.name)
         if h is not None:
             return h(self, list(args), kwargs, node)
@@ -992,10 +994,39 @@ class Interp:
             init.impl(self, [obj] + args, kwargs, node)
         return obj
 
+    def mark_shared(self, v, seen=None):
+        seen = seen if seen is not None else set()
+        if id(v) in seen or not isinstance(v, HeapObj):
+            return
+        seen.add(id(v))
+        v.fresh = False
+        v.shared = True
+        if isinstance(v, Obj):
+            for x in v.fields.values():
+                self.mark_shared(x, seen)
+        elif isinstance(v, PList) and v.items is not None:
+            for x in v.items:
+                self.mark_shared(x, seen)
+        elif isinstance(v, PDict) and not v.is_sym():
+            for k_, x in v.entries:
+                self.mark_shared(x, seen)
+
     def call_func(self, fn, args, kwargs, node=None):
         if self.depth >= self.max_depth:
             # host recursion limit stand-in: unbounded recursion is reported as RecursionError
             self.throw("RecursionError", "maximum recursion depth exceeded", node)
+        if getattr(fn, "unknown_decorator", None):
+            self.unsupported(f"call of {fn.qualname}, decorated with @{fn.unknown_decorator}", node)
+        if getattr(fn, "memoized", False) and not getattr(self, "_in_memo", False):
+            # functools.lru_cache / cache: the object returned is handed to every caller with equal arguments, before and
+            # after this call -- it is not this call's own allocation
+            self._in_memo = True
+            try:
+                r = self.call_func(fn, args, kwargs, node)
+            finally:
+                self._in_memo = False
+            self.mark_shared(r)
+            return r
         fnode = fn.node
         a = fnode.args
         locals_ = {}
